@@ -84,6 +84,24 @@ def r_visitor(root):
     ob("C22", "C22.g", L, "TextXVisitor._resolve_rule_refs", "comment model refreshed after reference resolution", okg)
     if not okg:
         out.append(Finding("C22", "C22.g", L, "TextXVisitor.visit_textx_model", "comments_model = self.metamodel['Comment']._tx_peg_rule", "the comment rule's expression is captured before rule references are resolved and never refreshed: a Comment rule that is a single rule reference stays an unresolved reference object and parsing any model fails with AttributeError", witness="Comment: LineComment; LineComment: /\\/\\/.*?$/;"))
+    # ---------------- C22.i  whenever the grammar defines a Comment rule, the parser ends up with it as its comment model
+    inst += 1
+    sites = []
+    for f_ in (vm, rr):
+        fi_ = sem.info(f_)
+        for n in own_nodes(f_):
+            if isinstance(n, ast.Assign) and "['Comment']._tx_peg_rule" in ast.unparse(n.value).replace('"', "'"):
+                at = [(a.replace(" ", "").replace('"', "'"), p) for a, p in fi_.atoms_at(n)]
+                sites.append((f_.name, n, at))
+            elif isinstance(n, ast.Assign) and isinstance(n.value, ast.IfExp) and "['Comment']._tx_peg_rule" in ast.unparse(n.value.body).replace('"', "'"):
+                at = [(a.replace(" ", "").replace('"', "'"), p) for a, p in fi_.atoms_at(n)] + [(ast.unparse(n.value.test).replace(" ", "").replace('"', "'"), True)]
+                sites.append((f_.name, n, at))
+    def plain(at): return len(at) >= 1 and all(p and a.startswith("'Comment'in") and a.endswith("metamodel") for a, p in at)
+    oki = any(plain(at) for _f, _n, at in sites)
+    ob("C22", "C22.i", L, "TextXVisitor", "a site wires the Comment rule under the sole condition that the grammar defines it (%d wiring sites)" % len(sites), oki)
+    if not oki:
+        f0, n0, at0 = sites[0] if sites else ("visit_textx_model", None, [])
+        out.append(Finding("C22", "C22.i", L, "TextXVisitor." + f0, " ".join(ast.unparse(n0).split())[:90] if n0 is not None else "comments_model", "no site hands the grammar's Comment rule to the parser under the sole condition that the grammar defines one (conditions found: %s): for some configuration the parser has no comment model and comments are not skipped where whitespace skipping is active" % [[a for a, p in at] for _f, _n, at in sites], witness="skipws=False for the metamodel, a rule with [skipws], a comment inside that rule"))
     # ---------------- C21.d
     vs = find_i(root, L, "TextXVisitor.visit_str_match"); gs = CFG(vs)
     dec = [n for n in gs.nodes if n.ast is not None and n.kind in ("stmt", "cond") and any(callee_name(c) == "decode_escapes" for c in calls(n.ast))]
